@@ -170,6 +170,43 @@ func c18NoWriteBeforeReject(c *Ctx) {
 		r.Unknown("C18/R2", "write-census", "the write census sees the handlers' durable writes", "", sprintf("only %d write calls found (9 confirmed by hand)", nW))
 	}
 	r.Count("r2_write_calls", nW)
+	c18ReinitStepsOwnRound(c)
+}
+
+// c18ReinitStepsOwnRound: a reinit operation replays a list of inner operations through GetOperationResult, each with all
+// its durable effects (the master-key step stores a BLS keyring under the INNER operation's round id). The outer
+// operation can still be refused afterwards, so an inner step may only be executed if it names the outer round: otherwise
+// a refused operation has created or replaced the keyring of another round.
+func c18ReinitStepsOwnRound(c *Ctx) {
+	r := c.R
+	fn := c.Fn("C18/R2", "airgapped", "Machine", "handleReinitDKG")
+	if fn == nil {
+		return
+	}
+	execs := ssax.Calls(fn, false, func(ci ssa.CallInstruction) bool {
+		o := ssax.CalleeObj(ci)
+		return o != nil && o.Name() == "GetOperationResult"
+	})
+	var same []ssax.Edge
+	for _, cd := range ssax.Conds(fn) {
+		if cd.Op != token.EQL && cd.Op != token.NEQ {
+			continue
+		}
+		a, b := npath(cd.X), npath(cd.Y)
+		inner := func(p string) bool { return strings.HasPrefix(p, "json(operation.Payload)[") && strings.HasSuffix(p, ".DKGIdentifier") }
+		if (inner(a) && b == "operation.DKGIdentifier") || (inner(b) && a == "operation.DKGIdentifier") {
+			e, _ := cd.EdgeWhere(token.EQL)
+			same = append(same, e)
+		}
+	}
+	ok := len(execs) == 1 && len(same) > 0
+	for _, x := range execs {
+		if ssax.ReachableAvoiding(fn, x.(ssa.Instruction), same, nil) {
+			ok = false
+		}
+	}
+	r.Check(ok, "C18/R2", "airgapped.handleReinitDKG:steps-own-round", "an inner step of a reinit operation is executed only if it names the reinitialized round", c.Pos(fn.Pos()),
+		sprintf("%d inner executions, %d tests of the step's DKGIdentifier against operation.DKGIdentifier; the execution is reachable without one: a reinit operation that is finally refused (\"invalid dkg identifier\") has already stored — or replaced — the BLS keyring of another round", len(execs), len(same)))
 }
 
 // callIsPureIO: the call can fail only for storage/board I/O reasons (or not at all): every callee is a durable sink,
